@@ -89,7 +89,7 @@ def tlc_trace(trace_path, spec="UtpTrace", cfg=None, tag=None, timeout=900, xmx=
     return v
 
 def tlc_model(spec, cfg=None, tag=None, timeout=600, workers=None, extra=None, simulate=None, depth=None,
-              xmx="8g", env_extra=None, allow_fail=False):
+              xmx="8g", env_extra=None, allow_fail=False, coverage=False):
     """Run a bounded model; returns dict(states, distinct, depth, ok, out)."""
     tag = tag or ("mc_" + (cfg or spec))
     md = _metadir(tag)
@@ -97,7 +97,9 @@ def tlc_model(spec, cfg=None, tag=None, timeout=600, workers=None, extra=None, s
     if env_extra:
         env.update(env_extra)
     cmd = ["timeout", str(timeout), "tlc", "-workers", str(workers or min(NCPU, 12)), "-metadir", md, "-cleanup",
-           "-noGenerateSpecTE", "-coverage", "1"]
+           "-noGenerateSpecTE"]
+    if coverage:
+        cmd += ["-coverage", "1"]
     if simulate:
         cmd += ["-simulate", f"num={simulate}"]
         if depth:
